@@ -136,6 +136,26 @@ func checkC14(c C14Case, o *Obs) (err error) {
 			}
 			_ = ext
 		}
+		// the caller edits its buffer in place and asks again (a read buffer refilled with a read of
+		// the same length): the answer is about what the buffer holds then
+		if len(seq) >= 4 && len(seq) <= 70000 {
+			buf := bytes.Clone(seq)
+			catch(func() { sequtil.TranslateReadingFrames(buf) })
+			for i := 1; i < len(buf); i += 3 {
+				buf[i] = "ACGTacgt"[(int(buf[i])+i)%8]
+			}
+			var again [3][]byte
+			if p := catch(func() { again = sequtil.TranslateReadingFrames(buf) }); p != nil {
+				return fmt.Errorf("TranslateReadingFrames panicked on a buffer edited in place after an earlier call: %v", p)
+			}
+			for i := 0; i < 3; i++ {
+				sub := buf[min(i, len(buf)):]
+				want, _ := ref.Translate(sub[:len(sub)/3*3])
+				if !bytes.Equal(again[i], want) {
+					return fmt.Errorf("TranslateReadingFrames was called on the caller's buffer (%d bases), the caller substituted every third base in place and called again: frame %d is not the translation of what the buffer holds now", len(buf), i)
+				}
+			}
+		}
 		for i := 0; i < 3; i++ {
 			sub := seq[min(i, len(seq)):]
 			sub = sub[:len(sub)/3*3]
@@ -304,6 +324,12 @@ func exhaustiveC14(thorough bool, emit func(C14Case) bool) {
 		mb := realDNA(n, 11, false, true)
 		if !emit(C14Case{Kind: "translate", Seq: mb, Cut: n / 3}) {
 			return
+		}
+		// megabase lengths that are not a multiple of three (must panic like any other)
+		for _, cut := range []int{1 << 20, 1<<20 + 1, n - 1} {
+			if !emit(C14Case{Kind: "translate", Seq: mb[:cut]}) {
+				return
+			}
 		}
 		for _, positions := range [][]int{{n / 2}, {1000, n - 1000}, {0, n / 2, n - 1}, {1<<18 - 1, 1 << 18, 3 << 18}} {
 			bad := bytes.Clone(mb)
